@@ -14,8 +14,8 @@ import (
 
 func init() {
 	fw.Register(&fw.Property{
-		ID:    "C04",
-		Level: "exploration",
+		ID:     "C04",
+		Level:  "exploration",
 		Jitter: true,
 		Rule: "genomes with abstract annotations of 1-6 coding features (strand +/-, 1-3 segments with boundaries inside codons, codon_start 1-3, overlapping/abutting/slippage joins, named and (GFF3) unnamed CDS with named mature_protein_region children, features touching position 1 and L) rendered to GenBank or GFF3; queries with A/C/G/T and IUPAC substitutions, gaps, '?' and insertions; FASTA form (variants) and SAM form (sam variants); --append-snps on and off; reference by ID or from the annotation; " +
 			"distinct non-trivial = distinct (format, form, strands, segment counts, unnamed/children present, and which of {intergenic nuc, synonymous nuc in CDS, aa, aa with 2-3 SNPs, resolved ambiguity codon, unnamed-only position, position in two features} occurred)",
@@ -40,9 +40,9 @@ type annoCase struct {
 	annoTxt string
 	form    string // fasta / sam
 	// fasta form
-	msa     gen.VarMSA
-	msaTxt  string
-	refID   string // "" = reference from the annotation
+	msa    gen.VarMSA
+	msaTxt string
+	refID  string // "" = reference from the annotation
 	// sam form
 	sf      gen.SamFile
 	refTxt  string
@@ -184,7 +184,7 @@ func runC04(c *fw.Ctx, idx int) fw.Result {
 	if r.Chance(0.25) {
 		form = "sam"
 	}
-	opts := gen.AnnoOpts{MaxFeats: 6, AllowUnnamed: true, AllowSlip: true, SplitCodons: true, Isoforms: true, Rotate: true, NoStop: true}
+	opts := gen.AnnoOpts{MaxFeats: 6, AllowUnnamed: true, AllowSlip: true, SplitCodons: true, Isoforms: true, Rotate: true, NoStop: true, DupNames: true}
 	ac := makeAnnoCase(r, c.Thorough(), format, form, gen.DefaultVarProfile(), 8, opts)
 	threads := pickThreads(r)
 	outA, errA := ac.runVariants(-1, -1, false, 0, true, threads)
